@@ -9,7 +9,8 @@ driver appends a proxy of X to the hosted list C), take (C.pop() -> proxy back i
 value), clear (del C[:] inside the
 server), spawn (driver starts a short-lived child process with the proxy as argument; child uses it and exits), exit (agent 2
 exits while holding proxies; it is restarted for the next history), for X in {managed list, shared-memory MemoryBlock, value
-returned by a hosted method through managed()}.
+returned by a hosted method through managed(), managed list whose container C is hosted by a SECOND manager ('xlist': a proxy
+of X then lives inside another server process, whose own `get_server()` is not X's server)}.
 States with equal holder multisets are merged (counts capped at 2 per place); every TRANSITION is executed against the real
 server by replaying the history on fresh hosted objects, and after its last step the oracle is checked: after gc.collect() in
 every process including the server, debug_info lists X iff the model has holders, with exactly that count; every live proxy is
